@@ -87,6 +87,15 @@ def scenarios(P):
             'defaults': [], 'conf': {}, 'dirs': ['d1', 'd2'],
             'probes': [('a', ['m']), ('a', ['d'])],
         },
+        's7-untouched-rule-of-edited-file': {
+            # 'k' is defined only in the main file and reads the same before
+            # and after the edit: no schedule may see anything but allow
+            'old': {'policy.yaml': {'k': '@', 'z': 'role:z1'},
+                    'd1/o.yaml': {'a': 'role:d'}},
+            'new': {'policy.yaml': {'k': '@', 'z': 'role:z2'}},
+            'defaults': [], 'conf': {},
+            'probes': [('k', []), ('k', ['z1'])],
+        },
         's5-alias-halves-swap': {
             'old': {'policy.yaml': {'a': 'rule:h1 and rule:h2',
                                     'h1': 'role:p', 'h2': 'role:q'}},
@@ -102,14 +111,16 @@ TIERS = {
     'quick': dict(scen=['s1-main-edit-dir-override',
                         's1b-main-edit-dir-touched', 's2-dir-edit',
                         's3-defaults-permissive-default',
-                        's4-deprecated-defaults', 's6-two-dirs-no-edit'],
+                        's4-deprecated-defaults', 's6-two-dirs-no-edit',
+                        's7-untouched-rule-of-edited-file'],
                   bound=2, reduced=True, opcode=False,
                   probes={'s1-main-edit-dir-override': [2, 1],
                           's1b-main-edit-dir-touched': [1],
                           's2-dir-edit': [1],
                           's3-defaults-permissive-default': [2],
                           's4-deprecated-defaults': [2],
-                          's6-two-dirs-no-edit': [1]}),
+                          's6-two-dirs-no-edit': [1],
+                          's7-untouched-rule-of-edited-file': [2]}),
     'thorough': dict(scen=None, bound=2, reduced=False, opcode=True,
                      probes=None),
 }
